@@ -34,6 +34,7 @@ type Std struct {
 	SCd  *Type // struct{N int32} whose Compare method returns the difference of the N (any int, not just -1/0/+1); C13 only
 	SD   *Type // struct with an SCd field
 	SH   *Type // ==-comparable struct whose fields have the custom methods (the methods must still decide)
+	SHH  *Type // ==-comparable struct holding SH by value: the custom methods sit two struct levels down (round 6, C02k)
 	// imported
 	XE    *Type // imported struct, exported fields only
 	XU    *Type // imported struct with unexported fields (nameable types)
@@ -82,6 +83,8 @@ func NewStd(u *Universe) *Std {
 	s.SCd.CompareMethod = "customd"
 	s.SD = u.DeclareAs("", "SD", StructOf(F("At", s.SCd), F("V", B("int8"))))
 	s.SH = u.DeclareAs("", "SH", StructOf(F("N", B("int")), F("H", s.SCi), F("V", s.SCv), F("A", Array(2, s.SCi))))
+	sh2 := u.DeclareAs("", "SH2", StructOf(F("ID", B("int")), F("H", s.SCi), F("V", s.SCv)))
+	s.SHH = u.DeclareAs("", "SHH", StructOf(F("K", B("int")), F("In", sh2)))
 
 	s.XN = u.DeclareAs(ExtPlain, "Num", B("int32"))
 	s.XE = u.DeclareAs(ExtPlain, "Pub", StructOf(F("I", B("int")), F("S", B("string")), F("P", Ptr(B("float64"))), F("L", Slice(B("uint16"))), F("N", s.XN)))
@@ -114,7 +117,7 @@ func (s *Std) Leaves() []*Type {
 // ExtraLeaves are used by the random part only.
 func (s *Std) ExtraLeaves() []*Type {
 	return []*Type{B("int8"), B("int16"), B("int32"), B("int64"), B("uint"), B("uint16"), B("uint32"), B("uint64"), B("uintptr"),
-		B("float32"), B("complex64"), B("byte"), s.NBool, s.NU8, s.NDigest, s.NStrS, s.NIntS, s.SE, s.SEq, s.SCi, s.SCv, s.SCn, s.SPad, s.SH, s.XB, s.XO, s.XDupC, s.SM1, s.SM2, s.XDupA, s.XDupB, s.XN, s.NSlice, s.NMap, s.NArr, s.NPtr}
+		B("float32"), B("complex64"), B("byte"), s.NBool, s.NU8, s.NDigest, s.NStrS, s.NIntS, s.SE, s.SEq, s.SCi, s.SCv, s.SCn, s.SPad, s.SH, s.SHH, s.XB, s.XO, s.XDupC, s.SM1, s.SM2, s.XDupA, s.XDupB, s.XN, s.NSlice, s.NMap, s.NArr, s.NPtr}
 }
 
 // Keys returns the value-key types for maps (pointer-free, ==-comparable).
